@@ -302,7 +302,11 @@ loop:
 					numSeries += len(r[i].Samples)
 				}
 
-				series = make([]promql.Series, numSeries)
+				// Allocate the table on the first batch only: re-creating it
+				// for every batch kept nothing but the last batch of steps.
+				if len(series) == 0 {
+					series = make([]promql.Series, numSeries)
+				}
 
 				for _, vector := range r {
 					for i := range vector.Samples {
